@@ -213,14 +213,17 @@ Definition m_member (c : call) : res :=
   end.
 
 (* ==== assoc.go assoc-if.go assoc-if-not.go rassoc.go rassoc-if.go ================================= *)
-(* args[1].(slip.List) fails for the Go nil: (assoc x nil) is a type error.  With :test the call is
-   test(key, item) — the arguments swapped.  The alist is (k1 . v1) ... given as two lists. *)
+(* alist, ok := args[1].(slip.List); if !ok && args[1] != nil { TypePanic }: the Go nil is the empty
+   alist.  With :test the call is test(key, item) — the arguments swapped.  The alist is
+   (k1 . v1) ... given as two lists. *)
 Definition assoc_test (t : testarg) (item k : Z) : bool :=
   match t with TDefault => item =? k | TTest f => test_app f k item | TTestNot f => negb (test_app f k item) end.
 Definition pair_res (o : option (Z * Z)) : res := match o with Some (k, v) => RSeq [k; v] | None => RNil end.
+Definition list_arg (s : seqin) : option (list Z) :=
+  match s with SNil => Some [] | SList l => Some l | _ => None end.
 Definition m_assoc (c : call) : res :=
-  match c_seq c with
-  | SList ks =>
+  match list_arg (c_seq c) with
+  | Some ks =>
       let al := combine ks (elems (c_seq2 c)) in
       let side (kv : Z * Z) := match c_fn c with FRassoc | FRassocIf => snd kv | _ => fst kv end in
       match c_fn c, c_test c with
@@ -230,7 +233,7 @@ Definition m_assoc (c : call) : res :=
       | _, TDefault => pair_res (find (fun kv => pred_app (c_pred c) (key_app (c_key c) (side kv))) al)
       | _, _ => RErr EType
       end
-  | _ => RErr EType
+  | None => RErr EType
   end.
 
 (* ==== search.go ===================================================================================== *)
